@@ -1686,6 +1686,8 @@ func work(r *hxlib.Run) {
 	}
 	// 5. key / value representation, held outputs, re-entrant actions (legs3.go; oracle-only)
 	typeLegs(r)
+	// comparators whose results are word extremes (legs4.go; oracle-only)
+	cmpResLegs(r)
 	if r.Search {
 		if r.Failed() {
 			r.Note("search legs not run: the thorough generators already produced a failing input")
